@@ -272,7 +272,15 @@ struct Exec {
     out().line("{\"e\":\"limit\",\"L\":" + std::to_string(L) + "}");
   }
 
+  // Observation is made with the length limit lifted: getters that parse internally
+  // (get_origin of blob: URLs, the invalid-handle setter sweep) must not see the limit.
   std::string obs3(int slot) {
+    if (limit != -1) ada::set_max_input_length(0xFFFFFFFFu);
+    std::string r = obs3_impl(slot);
+    if (limit != -1) ada::set_max_input_length((uint32_t)limit);
+    return r;
+  }
+  std::string obs3_impl(int slot) {
     Slot& x = s[slot];
     Obs oa = x.a ? observe(*x.a) : Obs{};
     std::string ja = oa.json();
@@ -308,7 +316,10 @@ struct Exec {
       if (ru) nu = std::move(*ru);
     }
     ada_url nc = nullptr;
-    if (c_api) {
+    // The C API takes the base as a STRING and parses it under the current limit: when the
+    // base href itself exceeds the limit the C call is a different operation, so skip it.
+    bool c_here = c_api && !(b && limit >= 0 && (long)href(b).size() > limit);
+    if (c_here) {
       if (b) {
         std::string bh = href(b);
         Arg barg(bh);
